@@ -54,6 +54,13 @@ ROUTES = ScenarioCheck("C09", ["SimVerif.Props.C09"], "kernel", gen2, delay.chec
 def run(tier, seed, replay):
     if replay:
         return CHECK.run(tier, seed, replay)
+    if os.environ.get("VERIF_DUMP_SCN"):
+        # tools/coverage.py: both stages' scenarios in one file (each stage's run() returns right after its dump)
+        p = os.path.join(os.environ["VERIF_DUMP_SCN"], "C09.scn")
+        CHECK.run(tier, seed, None, write=False); s1 = open(p).read()
+        ROUTES.run(tier, seed, None, write=False); s2 = open(p).read()
+        with open(p, "w") as f: f.write(s1 + "\n" + s2)
+        return 0
     t0 = time.time()
     rc1 = CHECK.run(tier, seed, None, write=False); cov1, v1, _ = CHECK.last
     rc2 = ROUTES.run(tier, seed, None, write=False); cov2, v2, _ = ROUTES.last
